@@ -209,10 +209,10 @@ def one_fault(rep, drv, contents, ci, seed, case_dir, src_root, dst_root, out_ro
         # as up to date (nothing is written), exit 0.  readlink is not a mutating call (outside C10's quantifier); recorded, not repaired.
         link_dirs = {r for r, n in pre_dst.items() if n["k"] == "l" and (pre_src.get(r) or {}).get("k") == "d"}
         probe_link = all(c in ("readlink", "readlinkat") for c, _, _ in faults) and link_dirs and \
-            all(any(r == a or r.startswith(a + "/") for a in link_dirs) for r, _ in wrong) and es.tree_fingerprint(pre_dst) == es.tree_fingerprint(post_dst)
+            all(any(r == a or r.startswith(a + "/") for a in link_dirs) for r, _ in wrong) and all(post_dst.get(a) == pre_dst.get(a) for a in link_dirs)
         if probe_link:
             probe_case = True
-            rep.oracle_fail("C10/link-conflict-unseen-when-readlink-probe-fails", f"exit 0 under {faults}: the link probe of {sorted(link_dirs)[:2]} failed, the link was taken for a directory and nothing below it was transferred (destination unchanged)", desc)
+            rep.oracle_fail("C10/link-conflict-unseen-when-readlink-probe-fails", f"exit 0 under {faults}: the link probe of {sorted(link_dirs)[:2]} failed, the link was taken for a directory and nothing at or below it was transferred (the link is still there)", desc)
         elif probe_case:
             rep.oracle_fail("C10/type-conflict-unseen-when-stat-probe-fails", f"exit 0 under {faults}: the kind probe of {wrong[:3]} failed and the conflicting entry was planned as up to date", desc)
         else:
